@@ -138,3 +138,25 @@ package rapidcore
 //@   ensures [no-reservation-left] s.invokeCtx == nil
 //@   ensures [no-cached-init-error-left] s.cachedInitErrorResponse == nil
 
+
+// C06: the failure branch of one dispatched invocation: the reply body is the init error the runtime reported itself,
+// else the platform's default error for the first fault; then exactly one DONE; nothing at all when a reset took over
+//@ event InvokeDoneSent = send rapidcore.Server.InvokeDoneChan
+//@ event DefaultErrorSent = call rapidcore.(*Server).trySendDefaultErrorResponse
+//@ event InvokeDispatched = call interop.(InvokeContext).SendRequest
+//@ event InvokeWaited = ret interop.(InvokeContext).Wait
+//@ event InvokeFailedHere = ret interop.(InvokeContext).Wait when r1 != nil && !r1.ResetReceived
+//@ event InvokeResetTookOver = ret interop.(InvokeContext).Wait when r1 != nil && r1.ResetReceived
+//@ event InvokeSucceeded = ret interop.(InvokeContext).Wait when r1 == nil
+//@ event CachedInitErrorRead = ret rapidcore.(*Server).getCachedInitErrorResponse
+// the state getter installed by the sandbox builder only describes the registration service's state
+//@ funcfield Server.InternalStateGetter
+//@   modifies nothing
+//@ func (*Server).FastInvoke$1
+//@   requires s != nil && i != nil
+//@   ensures [nothing-dispatched-after-a-reset] old(s.invoker) == nil ==> delta(InvokeDispatched) == 0 && delta(InvokeDoneSent) == 1 && delta(DefaultErrorSent) == 0
+//@   ensures [dispatched-once] old(s.invoker) != nil ==> delta(InvokeDispatched) == 1 && delta(InvokeWaited) == 1 && first(InvokeDispatched) < first(InvokeWaited)
+//@   ensures [failure-answers-then-done] delta(InvokeFailedHere) == 1 ==> delta(DefaultErrorSent) == 1 && delta(InvokeDoneSent) == 1 && first(DefaultErrorSent) < first(InvokeDoneSent) && delta(CachedInitErrorRead) == 1
+//@   ensures [runtime's-own-init-error-wins] delta(InvokeFailedHere) == 1 ==> (lastret(CachedInitErrorRead) != nil ==> lastarg(DefaultErrorSent, 1) == lastret(CachedInitErrorRead)) && (lastret(CachedInitErrorRead) == nil ==> lastarg(DefaultErrorSent, 1) != nil)
+//@   ensures [reset-takes-over-silently] delta(InvokeResetTookOver) == 1 ==> delta(DefaultErrorSent) == 0 && delta(InvokeDoneSent) == 0
+//@   ensures [success-done-only] delta(InvokeSucceeded) == 1 ==> delta(DefaultErrorSent) == 0 && delta(InvokeDoneSent) == 1
